@@ -423,3 +423,5 @@ import grammar_contracts  # noqa: E402  (adds the grammar functions to U)
 grammar_contracts.add(U)
 import lexer_c14  # noqa: E402
 lexer_c14.add(U)
+import completion_c20  # noqa: E402
+completion_c20.add(U)
